@@ -1,4 +1,5 @@
 import SlotVerif.Proofs.Add
+import SlotVerif.Proofs.AddGroup
 /-
 First components of "the snapshot invariant `checkInv` survives a modelled insertion" (`Model/SnapInv.lean`,
 `Model/Add.lean`): the union-find half.  `ufOK` of the state before gives `ufOK` of the state after — every entry is a
@@ -79,6 +80,110 @@ theorem inserts_keep_ufOK {s s'' : Snap} (hok : ufOK s = true) (hi : Inserts s s
   induction hi with
   | refl s => exact hok
   | step h _ ih => exact ih (add_keeps_ufOK hok h)
+
+/-! ## the leader half: every class of the state after an insertion has the union-find entry `leaderOK` asks for -/
+
+theorem sorted_ext : ∀ (l₁ l₂ : List Nat), l₁.Pairwise (· < ·) → l₂.Pairwise (· < ·) → (∀ a, a ∈ l₁ ↔ a ∈ l₂) → l₁ = l₂
+  | [], [], _, _, _ => rfl
+  | [], b :: u, _, _, h => by have := (h b).mpr (List.mem_cons_self ..); cases this
+  | a :: t, [], _, _, h => by have := (h a).mp (List.mem_cons_self ..); cases this
+  | a :: t, b :: u, h1, h2, h => by
+    rw [List.pairwise_cons] at h1 h2
+    have hab : a = b := by
+      have ha := (h a).mp (List.mem_cons_self ..)
+      have hb := (h b).mpr (List.mem_cons_self ..)
+      rcases List.mem_cons.mp ha with ha | ha
+      · exact ha
+      · rcases List.mem_cons.mp hb with hb | hb
+        · exact hb.symm
+        · have := h2.1 a ha; have := h1.1 b hb; omega
+    subst hab
+    have ht : t = u := by
+      apply sorted_ext t u h1.2 h2.2
+      intro x
+      constructor
+      · intro hx
+        rcases List.mem_cons.mp ((h x).mp (List.mem_cons_of_mem _ hx)) with he | he
+        · have := h1.1 x hx; omega
+        · exact he
+      · intro hx
+        rcases List.mem_cons.mp ((h x).mpr (List.mem_cons_of_mem _ hx)) with he | he
+        · have := h2.1 x hx; omega
+        · exact he
+    rw [ht]
+
+/-- the identity on the key list of a well-formed map has exactly that key list -/
+theorem keys_identity_keys {m : SlotMap} (hm : WF m) : keys (identity (keys m)) = keys m := by
+  apply sorted_ext
+  · have := wf_identity (keys m)
+    unfold WF at this
+    unfold keys
+    exact List.pairwise_map.mpr this
+  · unfold WF at hm
+    unfold keys
+    exact List.pairwise_map.mpr hm
+  · intro x; exact Grp.mem_keys_identity _ x
+
+/-- every class after a modelled insertion is a class from before, unchanged, or the new class -/
+theorem add_classes {s s' : Snap} {n syn : Node} {f2o : SlotMap} {data : String} {a : AppId}
+    (hok : AddOK s) (h : addNew s n f2o syn data = some (s', a)) {c : SClass} (hc : c ∈ s'.classes) :
+    c ∈ s.classes ∨ (c.id = s.uf.length ∧ c.slots = keys f2o) := by
+  obtain ⟨sh, sh2, bij, bij2, perms, hs, _, _, _, _, _, _, _⟩ := addNew_form h
+  rw [hs] at hc
+  unfold setNew allocClass at hc
+  simp only [List.mem_map, List.mem_append, List.mem_singleton] at hc
+  obtain ⟨d, hd, rfl⟩ := hc
+  rcases hd with hd | hd
+  · left
+    have hne : (d.id == s.uf.length) = false := by
+      have := hok.2 d hd
+      simp only [beq_eq_false_iff_ne, ne_eq]; omega
+    simp only [hne]
+    exact hd
+  · right
+    subst hd
+    simp
+
+/-- the leader half of the invariant survives a modelled insertion -/
+theorem add_keeps_leaderOK {s s' : Snap} {n syn : Node} {f2o : SlotMap} {data : String} {a : AppId}
+    (hok : AddOK s) (hl : ∀ c ∈ s.classes, leaderOK s c = true) (h : addNew s n f2o syn data = some (s', a)) :
+    ∀ c ∈ s'.classes, leaderOK s' c = true := by
+  intro c hc
+  obtain ⟨_, _, _, _, _, _, _, hwf, _, _, _, _, _⟩ := addNew_form h
+  have huf := addNew_uf h
+  rcases add_classes hok h hc with hold | ⟨hid, hslots⟩
+  · have hlt : c.id < s.uf.length := hok.2 c hold
+    have hentry : s'.uf[c.id]? = s.uf[c.id]? := by rw [huf, List.getElem?_append_left hlt]
+    have := hl c hold
+    unfold leaderOK isAlive at this ⊢
+    rw [hentry]
+    exact this
+  · have hentry : s'.uf[c.id]? = some { id := s.uf.length, m := identity (keys f2o) } := by
+      rw [huf, hid, List.getElem?_append_right (Nat.le_refl _)]
+      simp
+    unfold leaderOK isAlive
+    rw [hentry]
+    simp only [hid, beq_self_eq_true, if_true, hslots, keys_identity_keys (wf_of_wfb _ hwf)]
+
+/-- the group half: every class after a modelled insertion stores generators that are permutations of its slots -/
+theorem add_keeps_groups_valid {s s' : Snap} {n syn : Node} {f2o : SlotMap} {data : String} {a : AppId}
+    (hok : AddOK s) (hg : ∀ c ∈ s.classes, Grp.Valid c.slots c.gens) (h : addNew s n f2o syn data = some (s', a)) :
+    ∀ c ∈ s'.classes, Grp.Valid c.slots c.gens := by
+  intro c hc
+  obtain ⟨sh, sh2, bij, bij2, perms, hs, _, _, _, _, _, _, hperms⟩ := addNew_form h
+  rw [hs] at hc
+  unfold setNew allocClass at hc
+  simp only [List.mem_map, List.mem_append, List.mem_singleton] at hc
+  obtain ⟨d, hd, rfl⟩ := hc
+  rcases hd with hd | hd
+  · have hne : (d.id == s.uf.length) = false := by
+      have := hok.2 d hd
+      simp only [beq_eq_false_iff_ne, ne_eq]; omega
+    simp only [hne]
+    exact hg d hd
+  · subst hd
+    simp only [beq_self_eq_true, if_true]
+    exact (addAll_generators (permsOK_valid hperms)).1
 
 end Snap
 end SV
